@@ -87,3 +87,27 @@ class K:
 
 
 CLASSES = [Base, D1, D2, DD, Other, Mixed, Outer.Inner, Outer.Inner.Deep, Registry]
+
+
+# further members of the Base hierarchy (not in CLASSES: used by name where a check needs a wide hierarchy)
+class D3(Base):
+    pass
+
+
+class D4(Base):
+    pass
+
+
+class D5(D2):
+    pass
+
+
+class Mixed2(D3, Other):
+    pass
+
+
+# two DIFFERENT classes that print alike (same module, same name): what a class factory or a reload leaves behind. Only
+# one of them is `fxh.Twin`; neither can be told from the other by repr() or by module + qualified name.
+TwinA = type("Twin", (), {"__module__": __name__})
+TwinB = type("Twin", (), {"__module__": __name__})
+Twin = TwinB
